@@ -994,7 +994,8 @@ def param_extents(P, callee):
     fn = resolve(P, callee) if isinstance(callee, str) else callee
     if fn is None or fn.cfg is None:
         return {}
-    k = (id(P), fn.name, fn.file)
+    _pe_cache = P.__dict__.setdefault("_memo", {}).setdefault("param_extents", {})
+    k = (fn.name, fn.file)
     if k in _pe_cache:
         return _pe_cache[k]
     if k in _pe_busy:
